@@ -103,21 +103,21 @@ PROPERTIES = {
         "level_note": "A1 (this is exactly what hides the rounding-level clauses), A4.",
     },
     "C13": {
-        "modules": ["interface", "parser", "met"], "level": "proof", "floor": 1000,
+        "modules": ["interface", "parser", "met", "purity"], "level": "proof", "floor": 1000,
         "assumptions": COMMON, "trusted": [T["Z3"], T["YAML"], T["DC"]],
         "explanation": "run_bldfm_single's result record equals the documented pipeline term over keyword-normalised uninterpreted callees (48 discrete configurations x symbolic everything else); every parser field equals the raw value or the dataclass default; missing sections rejected; load_config = parse_config_dict(yaml.safe_load(file)); tower local coordinates and validate() at construction; get_step per C16.",
         "level_text": "EUF equality between the real function's result and the specification term, for all inputs.",
         "level_note": "callees uninterpreted (their own contracts: C08/C09/C02...); YAML library assumed.",
     },
     "C14": {
-        "modules": ["drivers", "met"], "level": "other", "floor": 90,
+        "modules": ["drivers", "met", "purity"], "level": "other", "floor": 90,
         "assumptions": COMMON, "trusted": [T["Z3"], T["MAP"]],
         "explanation": "PROVED: run_bldfm_timeseries / run_bldfm_multitower by constructive loop invariants for symbolic numbers of steps and towers (results are the single runs in time order, keyed by tower in configuration order, one cache per series iff enabled); run_bldfm_parallel strategies 'towers' and 'time' under the Executor.map ordering contract, workers requested or configured, unknown strategy rejected, workers reset their inherited state. NOT under contract: strategy 'both' (flattened index arithmetic) and real scheduling (completion orders, worker counts, parent threads): BOUNDED runs with real pools (bounded/C14.py).",
         "level_text": "Serial drivers and two of three strategies proved under the ordering contract; 'both' and real scheduling bounded.",
         "level_note": "Executor.map contract assumed; distinct tower names required.",
     },
     "C15": {
-        "modules": ["cachec"], "level": "proof", "floor": 500,
+        "modules": ["cachec", "purity"], "level": "proof", "floor": 500,
         "assumptions": COMMON + [A["A7"]], "trusted": [T["Z3"], T["NPLOAD"], T["IVPC"], T["DFT"]],
         "explanation": "Frame obligation on the symbolic result of S: every input symbol the footprint-mode result depends on is hashed into the lookup key; get-key == put-key on all halo paths; a hit returns the stored triple without solving; misses store exactly the returned result once; dispersion mode never touches the cache; _compute_key hashes every argument and nothing else; get() never raises and returns None for an unreadable entry under the np.load contract.",
         "level_text": "Completeness/effectiveness/transparency proved on the real solver prologue/epilogue and cache class; crash-safety under the stated np.load contract.",
@@ -141,7 +141,7 @@ PROPERTIES.update({
         "level_note": "A1-A8; centroid bearing measured only on the bounded family.",
     },
     "C09": {
-        "modules": ["most", "interface"], "level": "proof", "floor": 120,
+        "modules": ["most", "interface", "purity"], "level": "proof", "floor": 120,
         "assumptions": COMMON + [A["A2"], A["A8"]], "trusted": [T["Z3"]],
         "explanation": "vertical_profiles (MOST, MOSTM, CONSTANT; z0 given / u* given; default and explicit stretch/domain height): first node = roughness length, node n = measurement height, wind vector reproduced at node n, direction constant, K = kappa u* z/(phi(z/L) Pr) (MOSTM split sums to K, none along the flow), diabatic log law, z0 <-> u* round trip returns identical grid and profiles; psi is the integral of the flux-gradient function (psi' = (phi_m - 1)/x on both branches by symbolic differentiation of the code's own expression), psi(0) = 0, psi and phi continuous at neutral, agreement with the reference model's _psiM/_phiC/_phiM. Positivity of K, strict monotonicity of the grid, reaching the domain height (inequalities over exp/log) and the OAAHOC closure are covered by the bounded stand-in only.",
         "level_text": "Equalities of the closure proved in real arithmetic with named exp/log/pow/arctan axiom instances; inequalities and OAAHOC bounded.",
